@@ -5,12 +5,12 @@ import (
 	"context"
 	"errors"
 	"fmt"
+	"github.com/spf13/viper"
 	"os"
 	"sort"
 	"strings"
 	"time"
 
-	"golang.org/x/time/rate"
 
 	"github.com/atlassian/gostatsd"
 	"github.com/atlassian/gostatsd/internal/verif/lib/fx"
@@ -28,13 +28,13 @@ var (
 )
 
 type cfg struct {
-	Submit   []string // sources submitted by the client, in order
-	MaxBatch int
-	Idle     time.Duration
-	Ticks    int
-	Peek     bool
-	Emit     bool
-	Outcomes int // number of provider outcome alternatives enumerated per call (1 = always found)
+	Submit      []string // sources submitted by the client, in order
+	MaxBatch    int
+	Idle        time.Duration
+	Ticks       int
+	Peek        bool
+	Emit        bool
+	Outcomes    int  // number of provider outcome alternatives enumerated per call (1 = always found)
 	SlowRefresh bool // refresh period 20s with TTL 5s: entries are long expired when the refresh happens
 }
 
@@ -49,17 +49,17 @@ type call struct {
 }
 
 type run struct {
-	c        cfg
-	ccp      *cloudprovider.CachedCloudProvider
-	calls    []call
-	answers  map[gostatsd.Source]int
-	version  int
-	lastGood map[gostatsd.Source]string // last non-nil instance id answered by the provider
-	everGood map[gostatsd.Source]map[string]bool
+	c            cfg
+	ccp          *cloudprovider.CachedCloudProvider
+	calls        []call
+	answers      map[gostatsd.Source]int
+	version      int
+	lastGood     map[gostatsd.Source]string // last non-nil instance id answered by the provider
+	everGood     map[gostatsd.Source]map[string]bool
 	seenPositive map[gostatsd.Source]bool
-	viol     string
-	violKey  string
-	callObj  *int
+	viol         string
+	violKey      string
+	callObj      *int
 }
 
 func (r *run) fail(k, m string) {
@@ -148,7 +148,10 @@ func body(c cfg, r *run) func(*vsched.Exec) {
 		}
 		*r = run{c: c, answers: map[gostatsd.Source]int{}, lastGood: map[gostatsd.Source]string{}, seenPositive: map[gostatsd.Source]bool{}, everGood: map[gostatsd.Source]map[string]bool{}, callObj: new(int)}
 		ctx, mock := fx.NewClock(context.Background())
-		ccp := cloudprovider.NewCachedCloudProvider(fx.Quiet(), rate.NewLimiter(rate.Limit(1e9), 1) /* finite, burst smaller than a batch: one token per provider call, never a wait worth mentioning */, provider{r}, gostatsd.CacheOptions{CacheRefreshPeriod: refresh, CacheEvictAfterIdlePeriod: c.Idle, CacheTTL: ttl, CacheNegativeTTL: negTTL})
+		// built as the gostatsd command builds it (this harness is compiled into cmd/gostatsd): cache periods and the
+		// request limiter come from the command line; the limiter is finite with a burst smaller than a batch
+		// (one token per provider call, never a wait worth mentioning)
+		ccp := newCachedInstancesFromViper(fx.Quiet(), provider{r}, viperFor(refresh, c.Idle, ttl, negTTL)).(*cloudprovider.CachedCloudProvider)
 		r.ccp = ccp
 		vsched.GoNamed("ccp.Run", func() { ccp.Run(ctx) })
 		vsched.Quiesce("started") // Run has created its refresh ticker at t=0: ticks fire at exactly 10s, 20s
@@ -214,6 +217,25 @@ func body(c cfg, r *run) func(*vsched.Exec) {
 			vsched.Quiesce("final-emit")
 		}
 	}
+}
+
+var vipers = map[[4]time.Duration]*viper.Viper{}
+
+func viperFor(refresh, idle, ttl, negTTL time.Duration) *viper.Viper {
+	k := [4]time.Duration{refresh, idle, ttl, negTTL}
+	if v := vipers[k]; v != nil {
+		return v
+	}
+	old := os.Args
+	os.Args = []string{"gostatsd", "--backends=null", "--max-cloud-requests=1000000000", "--burst-cloud-requests=1",
+		verifDur("cloud-cache-refresh-period", refresh), verifDur("cloud-cache-evict-after-idle-period", idle), verifDur("cloud-cache-ttl", ttl), verifDur("cloud-cache-negative-ttl", negTTL)}
+	v, _, err := setupConfiguration()
+	os.Args = old
+	if err != nil {
+		panic(err)
+	}
+	vipers[k] = v
+	return v
 }
 
 func uniq(ss []string) []string {
